@@ -4,7 +4,7 @@
     the structures that are hashed or stored equal the ones the model was
     written against, and the facts the theorems lean on are decided on the
     regenerated objects. *)
-From Coq Require Import List String Bool Arith.
+From Coq Require Import List String Bool Arith NArith.
 From Verif Require Import Caco.Load Caco.LoadGen Caco.Build Gen.CacoBuild.
 Import ListNotations.
 Local Open Scope string_scope.
@@ -131,6 +131,14 @@ Definition frozen_buildNodeDigest : list (string * string) :=
     ("assign", "action.Rule = meta.digest");
     ("assign", "action.Outs = meta.outs");
     ("assign", "action.DockerOut = meta.dockerOut");
+    ("endif", "");
+    ("init", "fs, ok := n.rule.(*fileSet)");
+    ("if", "ok");
+    ("assign", "nodes, err := fs.fileNodes(env)");
+    ("if", "err != nil");
+    ("return", """"", errcode.Annotate(err, ""digest file nodes"")");
+    ("endif", "");
+    ("assign", "action.FileNodes = nodes");
     ("endif", "");
     ("assign", "d, err := makeDigest(""build_action"", """", action)");
     ("if", "err != nil");
@@ -520,13 +528,57 @@ Definition frozen_ctx_ruleType : list (string * string) :=
 Lemma gen_ctx_ruleType_frozen : sk_eqb sk_ctx_ruleType frozen_ctx_ruleType = true.
 Proof. vm_compute. reflexivity. Qed.
 
+Definition frozen_newBuildCache : list (string * string) :=
+  [ ("assign", "tables, err := pisces.OpenSqlite3Tables(f)");
+    ("if", "err != nil");
+    ("return", "nil, errcode.Annotate(err, ""open cache table"")");
+    ("endif", "");
+    ("assign", "cache := tables.NewKV(""build_cache"")");
+    ("init", "err := tables.CreateMissing()");
+    ("if", "err != nil");
+    ("return", "nil, errcode.Annotate(err, ""create cache tables"")");
+    ("endif", "");
+    ("return", "&buildCache{ expire: time.Hour * 24 * 7, tables: tables, cache: cache, clock: verifCacheClock(), }, nil") ].
+
+Lemma gen_newBuildCache_frozen : sk_eqb sk_newBuildCache frozen_newBuildCache = true.
+Proof. vm_compute. reflexivity. Qed.
+
+Definition frozen_fileSet_fileNodes : list (string * string) :=
+  [ ("decl", "var m map[string]string");
+    ("range", "_, f := range fs.files");
+    ("assign", "t := env.nodeType(f)");
+    ("if", "t == nodeSrc");
+    ("branch", "continue");
+    ("endif", "");
+    ("if", "m == nil");
+    ("assign", "m = make(map[string]string)");
+    ("endif", "");
+    ("assign", "m[f] = t");
+    ("if", "t == nodeOut");
+    ("assign", "stat, err := newOutFileStat(env, f)");
+    ("if", "err != nil");
+    ("return", "nil, errcode.Annotatef(err, ""out file stat %q"", f)");
+    ("endif", "");
+    ("assign", "d, err := makeDigest(nodeOut, f, stat)");
+    ("if", "err != nil");
+    ("return", "nil, errcode.Annotate(err, ""digest out file stat"")");
+    ("endif", "");
+    ("assign", "m[f] = d");
+    ("endif", "");
+    ("endrange", "");
+    ("return", "m, nil") ].
+
+Lemma gen_fileSet_fileNodes_frozen : sk_eqb sk_fileSet_fileNodes frozen_fileSet_fileNodes = true.
+Proof. vm_compute. reflexivity. Qed.
+
 Definition frozen_layout_buildAction : list (string * string * string) :=
   [ ("Rule", "string", "json:"",omitempty""");
     ("RuleType", "string", "json:"",omitempty""");
     ("Deps", "map[string]string", "json:"",omitempty""");
     ("Outs", "[]string", "json:"",omitempty""");
     ("DockerOut", "bool", "json:"",omitempty""");
-    ("OutputOf", "string", "json:"",omitempty""") ].
+    ("OutputOf", "string", "json:"",omitempty""");
+    ("FileNodes", "map[string]string", "json:"",omitempty""") ].
 
 Lemma gen_layout_buildAction_frozen : lay_eqb layout_buildAction frozen_layout_buildAction = true.
 Proof. vm_compute. reflexivity. Qed.
@@ -640,12 +692,45 @@ Definition field_names (l : list (string * string * string)) : list string :=
 
 Lemma gen_hashed_fields :
   field_names layout_fileStat = ["Name"; "Type"; "Size"; "ModTimestamp"; "Mode"; "Symlink"] /\
-  field_names layout_buildAction = ["Rule"; "RuleType"; "Deps"; "Outs"; "DockerOut"; "OutputOf"] /\
+  field_names layout_buildAction =
+    ["Rule"; "RuleType"; "Deps"; "Outs"; "DockerOut"; "OutputOf"; "FileNodes"] /\
   field_names layout_FileSet = ["Name"; "Files"; "Select"; "Ignore"; "Include"] /\
   field_names layout_Bundle = ["Name"; "Deps"].
 Proof. repeat split; vm_compute; reflexivity. Qed.
 
+(** The action digest of a file set carries [fileNodes] ([Build.extras_of]);
+    the cache expires entries after [Build.expire]; the cache reads its
+    clock where the model reads [w_now] (at [get] and at [put]). *)
+Definition filenodes_okb : bool :=
+  before ("init", "fs, ok := n.rule.(*fileSet)") ("assign", "d, err := makeDigest(""build_action"", """", action)")
+         sk_buildNodeDigest &&
+  match index_of ("assign", "nodes, err := fs.fileNodes(env)") sk_buildNodeDigest,
+        index_of ("assign", "action.FileNodes = nodes") sk_buildNodeDigest with
+  | Some _, Some _ => true
+  | _, _ => false
+  end.
+
+Lemma gen_filenodes_ok : filenodes_okb = true.
+Proof. vm_compute. reflexivity. Qed.
+
+Lemma gen_cache_expire_ok : gen_cache_expire_ns = Build.expire.
+Proof. vm_compute. reflexivity. Qed.
+
+Definition cache_clock_okb : bool :=
+  match index_of ("assign", "t := timeutil.ReadTime(c.clock)") sk_cache_put,
+        index_of ("assign", "now := timeutil.ReadTime(c.clock)") sk_cache_get,
+        index_of ("assign", "expire := timeutil.Time(entry.CreateTime).Add(c.expire)") sk_cache_get,
+        index_of ("if", "now.Before(expire)") sk_cache_get with
+  | Some _, Some _, Some _, Some _ => true
+  | _, _, _, _ => false
+  end.
+
+Lemma gen_cache_clock_ok : cache_clock_okb = true.
+Proof. vm_compute. reflexivity. Qed.
+
 Definition builder_frozenb : bool :=
+  sk_eqb sk_newBuildCache frozen_newBuildCache &&
+  sk_eqb sk_fileSet_fileNodes frozen_fileSet_fileNodes &&
   sk_eqb sk_builder_Build frozen_builder_Build &&
   sk_eqb sk_builder_buildNode frozen_builder_buildNode &&
   sk_eqb sk_buildNodeDigest frozen_buildNodeDigest &&
@@ -678,5 +763,6 @@ Definition builder_frozenb : bool :=
 
 Lemma gen_builder_shape :
   builder_frozenb = true /\ buildnode_order_okb = true /\ samestat_okb = true /\
+  filenodes_okb = true /\ cache_clock_okb = true /\ gen_cache_expire_ns = Build.expire /\
   gen_ruleFileSet = "file_set" /\ gen_ruleBundle = "bundle".
 Proof. repeat split; vm_compute; reflexivity. Qed.
